@@ -162,11 +162,11 @@ Definition keys_tree (dir : Z) (pk : list nat) (res : list (krow * list krow)) :
     L (map (fun cp => L [of_optZ (colval (fst cp) 0);
                          L (map (fun p => L (map (fun c => of_optZ (colval p c)) pk)) (snd cp))]) res).
 Definition is_selectin_code (c : Z) : bool := (c =? 4) || (10 <=? c).
-(* input L [I 77; L pairs; L pk; L parents; L children; I dir; L [I strategy code ...]]: selectin through the key
+(* input L [I 77; L pairs; L pk; L parents; L children; I dir; L [I strategy code ...]; I relationship (ignored)]: selectin through the key
    tuples, every other strategy through the join condition (the composite-key models of those are the spec) *)
 Definition run_keys (t : tree) : tree :=
   match t with
-  | L [I _; tp; tk; tpa; tch; I dir; tas] =>
+  | L [I _; tp; tk; tpa; tch; I dir; tas; _] =>
       match as_list_of as_natpair tp, as_list_of as_nat tk, as_list_of as_krow tpa, as_list_of as_krow tch,
             as_list_of as_Z tas with
       | Some pairs, Some pk, Some parents, Some children, Some codes =>
